@@ -31,6 +31,42 @@ type C19Step struct {
 	// io.StringWriter too, "byte" = io.ByteWriter too, "both", "readfrom" =
 	// io.ReaderFrom too (counts bytes read, like bufio.Writer).
 	Kind string `json:"kind,omitempty"`
+	// Err selects the error value the failing Write returns: "" = a plain
+	// errors.New value; "cause-nil" / "cause-other" = a value with a Cause() method
+	// (github.com/pkg/errors style) returning nil / another error; "unwrap" = a
+	// value with an Unwrap() method. Whatever it is, WriteTo must hand back that
+	// very value.
+	Err string `json:"err,omitempty"`
+}
+
+// stepErr is an error value with optional Cause/Unwrap methods.
+type causeErr struct {
+	msg   string
+	inner error
+}
+
+func (e *causeErr) Error() string { return e.msg }
+func (e *causeErr) Cause() error  { return e.inner }
+
+type unwrapErr struct {
+	msg   string
+	inner error
+}
+
+func (e *unwrapErr) Error() string { return e.msg }
+func (e *unwrapErr) Unwrap() error { return e.inner }
+
+func injectedError(sc *C19Step) error {
+	msg := fmt.Sprintf("injected write error (k=%d)", sc.K)
+	switch sc.Err {
+	case "cause-nil":
+		return &causeErr{msg: msg}
+	case "cause-other":
+		return &causeErr{msg: msg, inner: io.ErrClosedPipe}
+	case "unwrap":
+		return &unwrapErr{msg: msg, inner: io.ErrClosedPipe}
+	}
+	return errors.New(msg)
 }
 
 // C19Scenario is one episode: a module in a start state and a short sequence
@@ -72,6 +108,7 @@ type simWriter struct {
 	faultFired bool
 	midWrite   bool // the failure landed strictly inside one Write
 	pieces     int
+	extraCalls int // Flush/Sync/Close calls (kind extras)
 }
 
 func (w *simWriter) Write(p []byte) (int, error) {
@@ -107,6 +144,10 @@ func (w *simWriter) Write(p []byte) (int, error) {
 	if w.shape == "fullerr" {
 		w.got.Write(p)
 		return len(p), w.err
+	}
+	if w.shape == "panic" {
+		w.got.Write(p[:room])
+		panic(w.err)
 	}
 	w.got.Write(p[:room])
 	return room, w.err
@@ -158,8 +199,19 @@ func (w simWriterRF) ReadFrom(r io.Reader) (int64, error) {
 	}
 }
 
+// simWriterX also has Flush, Sync and Close methods that fail: none of them is
+// part of io.Writer, and an error none of the Write calls returned is not
+// WriteTo's to report.
+type simWriterX struct{ *simWriter }
+
+func (w simWriterX) Flush() error { w.simWriter.extraCalls++; return errors.New("flush failed") }
+func (w simWriterX) Sync() error  { w.simWriter.extraCalls++; return errors.New("sync failed") }
+func (w simWriterX) Close() error { w.simWriter.extraCalls++; return errors.New("close failed") }
+
 func (w *simWriter) as(kind string) io.Writer {
 	switch kind {
+	case "extras":
+		return simWriterX{w}
 	case "readfrom":
 		return simWriterRF{w}
 	case "string":
@@ -181,11 +233,37 @@ type c19Outcome struct {
 // c19Run executes one scenario against module m (already in its start state)
 // whose sequential text is S.
 func c19Run(sc *C19Step, m *ir.Module, S string) *c19Outcome {
-	injected := errors.New(fmt.Sprintf("injected write error (k=%d)", sc.K))
+	injected := injectedError(sc)
 	w := &simWriter{k: sc.K, shape: sc.Shape, chunk: sc.Chunk, err: injected, lateErr: errors.New("late error: Write called after a failed Write")}
 	var n int64
 	var err error
-	if p, msg := protect(func() { n, err = m.WriteTo(w.as(sc.Kind)) }); p {
+	var panicked interface{}
+	returned := false
+	func() {
+		defer func() {
+			if !returned {
+				panicked = recover()
+			}
+		}()
+		n, err = m.WriteTo(w.as(sc.Kind))
+		returned = true
+	}()
+	if sc.Shape == "panic" && w.faultFired {
+		// The writer panicked with its error value at offset k: that is not a
+		// return, the panic has to reach the caller as it is.
+		if returned {
+			return &c19Outcome{class: "panic-swallowed", sig: "panic-swallowed", detail: fmt.Sprintf("the writer panicked (with an error value) at offset %d; WriteTo returned n=%d err=%v instead of letting the panic through", sc.K, n, err), faultFired: true}
+		}
+		if pe, ok := panicked.(error); !ok || pe != injected {
+			return &c19Outcome{class: "panic-swallowed", sig: "panic-replaced", detail: fmt.Sprintf("the writer panicked with %v; the caller recovered %v", injected, panicked), faultFired: true}
+		}
+		// (what the library does with the writer while the panic unwinds - a
+		// deferred flush, say - is not covered by the statement, which speaks of
+		// writers that RETURN an error)
+		return &c19Outcome{faultFired: true, midWrite: w.midWrite}
+	}
+	if !returned {
+		msg := fmt.Sprint(panicked)
 		return &c19Outcome{class: "panic", sig: "panic in WriteTo: " + normDigits(clip(msg, 160)), detail: msg}
 	}
 	out := &c19Outcome{faultFired: w.faultFired, midWrite: w.midWrite}
@@ -342,7 +420,7 @@ func c19Search() {
 				}
 				distinct.add(hash64(sc.Module, sc.Start, st.Shape, fmt.Sprint(st.K), fmt.Sprint(st.Chunk), st.Kind))
 				if st.Kind != "" {
-					sum.Counters["writes into a writer that also implements io."+map[string]string{"string": "StringWriter", "byte": "ByteWriter", "both": "StringWriter and io.ByteWriter", "readfrom": "ReaderFrom"}[st.Kind]]++
+					sum.Counters["writes into a writer that also implements io."+map[string]string{"string": "StringWriter", "byte": "ByteWriter", "both": "StringWriter and io.ByteWriter", "readfrom": "ReaderFrom", "extras": "failing Flush/Sync/Close methods"}[st.Kind]]++
 				}
 			}
 			if len(sum.Samples) < 4 && sum.Counters["episodes (fresh simulator state, module rebuilt)"]%131 == 1 {
@@ -359,7 +437,7 @@ func c19Search() {
 		}
 		// Healthy writers.
 		if mine() {
-			runEpisode(&C19Scenario{Module: src.Name, Start: "printed", Steps: []C19Step{{K: -1, Shape: "short"}, {K: -1, Shape: "short", Chunk: 1}, {K: -1, Shape: "short", Chunk: 7}, {K: -1, Shape: "short", Chunk: 64}}})
+			runEpisode(&C19Scenario{Module: src.Name, Start: "printed", Steps: []C19Step{{K: -1, Shape: "short"}, {K: -1, Shape: "short", Chunk: 1}, {K: -1, Shape: "short", Chunk: 7}, {K: -1, Shape: "short", Chunk: 64}, {K: -1, Shape: "short", Kind: "extras"}, {K: -1, Shape: "short", Kind: "readfrom"}}})
 		}
 		if mine() {
 			runEpisode(&C19Scenario{Module: src.Name, Start: "fresh", Steps: []C19Step{{K: -1, Shape: "short"}, {K: -1, Shape: "short"}}})
@@ -380,12 +458,17 @@ func c19Search() {
 					if (thorough && len(S) <= 16384 && (k0/episodeLen)%2 == 1) || (k0/episodeLen)%13 == 5 {
 						sc.Start = "fresh"
 					}
-					kind := []string{"", "string", "byte", "both", "readfrom"}[(k0/episodeLen)%5]
+					kind := []string{"", "string", "byte", "both", "readfrom", "extras"}[(k0/episodeLen)%6]
 					if !thorough && (k0/episodeLen)%3 != 0 {
 						kind = "" // quick: most episodes use the plain writer
 					}
 					for k := k0; k < k0+episodeLen && k <= len(S); k++ {
-						sc.Steps = append(sc.Steps, C19Step{K: k, Shape: shape, Kind: kind})
+						st := C19Step{K: k, Shape: shape, Kind: kind, Err: []string{"", "", "cause-nil", "cause-other", "unwrap"}[(k/episodeLen+k)%5]}
+						if k%11 == 7 {
+							// the writer panics with its error value instead of returning it
+							st.Shape = "panic"
+						}
+						sc.Steps = append(sc.Steps, st)
 					}
 					// A healthy write after the failures: what a failed write left behind must not leak into it.
 					sc.Steps = append(sc.Steps, C19Step{K: -1, Shape: "short"})
@@ -401,7 +484,7 @@ func c19Search() {
 			for e := 0; e < 40 && failures < *flagMaxFail; e++ {
 				sc := &C19Scenario{Module: src.Name, Start: "printed"}
 				for i := 0; i < episodeLen-1; i++ {
-					sc.Steps = append(sc.Steps, C19Step{K: r.intn(len(S) + 1), Shape: []string{"short", "fullerr"}[r.intn(2)], Kind: []string{"", "", "string", "byte", "both", "readfrom"}[r.intn(6)]})
+					sc.Steps = append(sc.Steps, C19Step{K: r.intn(len(S) + 1), Shape: []string{"short", "fullerr"}[r.intn(2)], Kind: []string{"", "", "string", "byte", "both", "readfrom", "extras"}[r.intn(7)], Err: []string{"", "", "cause-nil", "cause-other", "unwrap"}[r.intn(5)]})
 				}
 				sc.Steps = append(sc.Steps, C19Step{K: -1, Shape: "short"})
 				if !mine() {
@@ -539,7 +622,7 @@ func c19Conc(sc *C19Scenario) (bad *c19Outcome, who int, outs []*c19Outcome, sta
 	if tape == nil {
 		tape = &Tape{}
 	}
-	simrt.Load(tape.config())
+	simrt.Load(tape.configKeep())
 	res := simrt.RunTasks(fns, 60*time.Second)
 	stats = simrt.Snapshot()
 	for i, r := range res {
